@@ -335,13 +335,19 @@ async fn run_generations(addr: SocketAddr, certs: Certs, id: u64, generations: u
 
 /// the real `Replier` of the client library (handler with small random delays) serving several real requestors
 /// and clones on separate connections: covers the replier-side echo of `req_id` and routing tag
-async fn run_lib_replier(addr: SocketAddr, certs: Certs, id: u64, seed: u64, calls_per_task: usize) -> std::result::Result<(u64, Vec<String>, u64), String> {
+async fn run_lib_replier(addr: SocketAddr, certs: Certs, id: u64, seed: u64, calls_per_task: usize, comp: Option<&'static str>) -> std::result::Result<(u64, Vec<String>, u64), String> {
     let topic = unique_topic("c04r", id);
+    let pair = comp.map(compression_pair);
     let rc = lib_client(&addr.to_string(), &certs, None).await.map_err(|e| format!("connect: {e}"))?;
-    let mut replier = rc
-        .replier(&topic)
-        .with_request_decoder(StringCodec)
-        .with_reply_encoder(StringCodec)
+    let mut rb = rc.replier(&topic).with_request_decoder(StringCodec);
+    if let Some((_, d)) = &pair {
+        rb = rb.with_request_decompression(d.clone());
+    }
+    let mut rb = rb.with_reply_encoder(StringCodec);
+    if let Some((c, _)) = &pair {
+        rb = rb.with_reply_compression(c.clone());
+    }
+    let mut replier = rb
         .with_handler(|req: String| async move {
             // data-dependent delay: replies of different requestors interleave on the replier's stream
             let d = (req.len() as u64 * 37) % 7;
@@ -359,7 +365,15 @@ async fn run_lib_replier(addr: SocketAddr, certs: Certs, id: u64, seed: u64, cal
     for c in 0..3 {
         let client = lib_client(&addr.to_string(), &certs, None).await.map_err(|e| format!("connect: {e}"))?;
         for s in 0..2 {
-            let mut rq = client.requestor(&topic).with_request_encoder(StringCodec).with_reply_decoder(StringCodec).with_request_timeout(4000u64).map_err(|e| e.to_string())?.open().await.map_err(|e| format!("open requestor: {e}"))?;
+            let mut qb = client.requestor(&topic).with_request_encoder(StringCodec);
+            if let Some((cp, _)) = &pair {
+                qb = qb.with_request_compression(cp.clone());
+            }
+            let mut qb = qb.with_reply_decoder(StringCodec);
+            if let Some((_, d)) = &pair {
+                qb = qb.with_reply_decompression(d.clone());
+            }
+            let mut rq = qb.with_request_timeout(4000u64).map_err(|e| e.to_string())?.open().await.map_err(|e| format!("open requestor: {e}"))?;
             let mut ok = false;
             for n in 0..40 {
                 if let Ok(v) = rq.request(format!("sentinel-{}-{}-{}", c, s, n)).await {
@@ -634,10 +648,20 @@ pub fn run(rep: &mut StageReport, tier: &str, seed: u64) {
         }
         {
             let calls = if thorough { 150 } else { 25 };
-            match tokio::time::timeout(Duration::from_secs(500), run_lib_replier(server.addr, certs.clone(), 800, seed, calls)).await {
-                Ok(Ok(x)) => lib_replier_result = Some(x),
-                Ok(Err(e)) => lib_replier_inconclusive = Some(e),
-                Err(_) => lib_replier_inconclusive = Some("watchdog: library-replier scenario did not finish in 500 s".into()),
+            // plain, and with compression on both legs (requests compressed by the requestor and decompressed by the
+            // replier, replies the other way round)
+            let comps: &[Option<&'static str>] = if thorough { &[None, Some("zstd"), Some("gzip"), Some("lz4"), Some("brotli-generic"), Some("zlib")] } else { &[None, Some("zstd"), Some("lz4")] };
+            for (ci, comp) in comps.iter().enumerate() {
+                match tokio::time::timeout(Duration::from_secs(500), run_lib_replier(server.addr, certs.clone(), 800 + ci as u64, seed, if ci == 0 { calls } else { calls / 2 + 3 }, *comp)).await {
+                    Ok(Ok(x)) => {
+                        let acc = lib_replier_result.get_or_insert((0, vec![], 0));
+                        acc.0 += x.0;
+                        acc.1.extend(x.1);
+                        acc.2 += x.2;
+                    }
+                    Ok(Err(e)) => lib_replier_inconclusive = Some(e),
+                    Err(_) => lib_replier_inconclusive = Some("watchdog: library-replier scenario did not finish in 500 s".into()),
+                }
             }
         }
         for g in 0..(if thorough { 6usize } else { 2 }) {
